@@ -8,16 +8,17 @@
 set -e
 cd "$(dirname "$0")"
 # fast path without the lock: explicit targets that are already up to date
-if [ $# -gt 0 ] && [ -f Makefile.coq ] && [ -f _CoqProject ]; then
+listing() {
+  echo "-Q . GS"
+  echo "-arg -w -arg -notation-overridden,-deprecated-hint-without-locality,-deprecated-instance-without-locality,-ambiguous-paths,-deprecated-syntactic-definition"
+  find Base Model Proofs Props Corr -name '*.v' | LC_ALL=C sort
+}
+if [ $# -gt 0 ] && [ -f Makefile.coq ] && [ -f _CoqProject ] && listing | cmp -s - _CoqProject; then
   case "$1" in -*) ;; *) if make -q -f Makefile.coq "$@" >/dev/null 2>&1; then exit 0; fi ;; esac
 fi
 exec 9>.build.lock
 flock -w ${COQ_LOCK_WAIT:-1500} 9 || { echo "mk.sh: could not get the build lock" >&2; exit 75; }
-{
-  echo "-Q . GS"
-  echo "-arg -w -arg -notation-overridden,-deprecated-hint-without-locality,-deprecated-instance-without-locality,-ambiguous-paths,-deprecated-syntactic-definition"
-  find Base Model Proofs Props Corr -name '*.v' | LC_ALL=C sort
-} > _CoqProject.new
+listing > _CoqProject.new
 if ! cmp -s _CoqProject.new _CoqProject 2>/dev/null; then
   mv _CoqProject.new _CoqProject
   coq_makefile -f _CoqProject -o Makefile.coq >/dev/null
